@@ -267,8 +267,10 @@ def make_watcher(kind, is_async=False):
 
 
 class Config:
-    def __init__(self, shape, adapter=True, watcher=None, initial=None, is_async=False, text=None, matchfn=None):
+    def __init__(self, shape, adapter=True, watcher=None, initial=None, is_async=False, text=None, matchfn=None, late=False):
         self.shape, self.adapter, self.watcher, self.is_async = shape, adapter, watcher, is_async
+        self.noq = False  # True: no decision / role queries after the calls (histories whose link state is outside the modelled domain)
+        self.late = late  # the enforcer is built without an adapter, its flags are set, then set_adapter + load_policy
         self.text = text or shape  # key into TEXT (a textual variant of the same model shape)
         self.matchfn = matchfn  # None | "regex": a role-name matching function registered on g (no domain matching function)
         P, G, G2, R = universe(shape)
@@ -283,7 +285,7 @@ class Config:
         )
 
     def key(self):
-        return (self.shape, self.text, self.matchfn, self.adapter, self.watcher, self.is_async, repr(self.initial))
+        return (self.shape, self.text, self.matchfn, self.adapter, self.watcher, self.is_async, repr(self.initial), self.late)
 
 
 def build_enforcer(cfg, fail_after=None):
@@ -291,7 +293,14 @@ def build_enforcer(cfg, fail_after=None):
     ad = make_adapter(casbin, cfg.initial, is_async=cfg.is_async) if cfg.adapter else None
     if cfg.is_async:
         m = casbin.AsyncEnforcer.new_model(text=TEXT[cfg.text])
-        e = casbin.AsyncEnforcer(m, ad)
+        if ad is not None and cfg.late:
+            e = casbin.AsyncEnforcer(m)
+            e.enable_auto_save(True)
+            e.enable_auto_build_role_links(True)
+            e.enable_auto_notify_watcher(True)
+            e.set_adapter(ad)
+        else:
+            e = casbin.AsyncEnforcer(m, ad)
         if ad is not None:
             run_async(e.load_policy())
             ad.log.clear()
@@ -309,6 +318,14 @@ def build_enforcer(cfg, fail_after=None):
                 for r in cfg.initial.get(sec, []):
                     e.model.model[sec[0]][sec].policy.append(list(r))
             e.build_role_links()
+        elif cfg.late:
+            e = casbin.Enforcer(m)
+            e.enable_auto_save(True)
+            e.enable_auto_build_role_links(True)
+            e.enable_auto_notify_watcher(True)
+            e.set_adapter(ad)
+            e.load_policy()
+            ad.log.clear()
         else:
             e = casbin.Enforcer(m, ad)
             ad.log.clear()
@@ -525,6 +542,8 @@ def exc_str(ex):
 def query_set(cfg):
     """(lean line, impl fn) pairs over the small universe"""
     qs = []
+    if getattr(cfg, "noq", False):
+        return qs
     for req in cfg.requests:
         qs.append(("enforce", tuple(req)))
     names = ["alice", "bob", "admin", "root"]
@@ -673,7 +692,7 @@ def compare_history(res, cfg, hist, impl, answers, idx, queries, judge):
         res.evaluations += 1
         res.count("op:" + op[0])
         res.count("ret:" + (rec["ret"] if rec["ret"] in ("T", "F", "-") or rec["ret"].startswith("!") else "list"))
-        case = {"config": {"shape": cfg.shape, "text": cfg.text, "matchfn": cfg.matchfn, "adapter": cfg.adapter, "watcher": cfg.watcher, "async": cfg.is_async, "initial": cfg.initial}, "history": [list(o) for o in hist[: i + 1]], "step": i}
+        case = {"config": {"shape": cfg.shape, "text": cfg.text, "matchfn": cfg.matchfn, "adapter": cfg.adapter, "watcher": cfg.watcher, "async": cfg.is_async, "late": cfg.late, "initial": cfg.initial}, "history": [list(o) for o in hist[: i + 1]], "step": i}
         model = {"ret": mret, "acalls": acalls, "wcalls": wcalls, "obs": obs, "answers": [m for m, _ in qa], "fresh": [s for _, s in qa]}
         # ---- the tie: implementation vs model
         diffs = []
@@ -707,7 +726,7 @@ def run_configs(res, jobs, judge, fresh_oracle=True, procs=12, extra=None):
     metas = []
     qcache = {}
     for cfg, hist in jobs:
-        qs = qcache.setdefault(cfg.shape, query_set(cfg))
+        qs = qcache.setdefault((cfg.shape, cfg.noq), query_set(cfg))
         ll, idx = lean_history(cfg, hist, qs)
         off = len(lines)
         lines.extend(ll)
@@ -717,7 +736,7 @@ def run_configs(res, jobs, judge, fresh_oracle=True, procs=12, extra=None):
     groups = []
     for i in range(0, len(jobs), chunk):
         part = jobs[i : i + chunk]
-        groups.append([(cfg, [h], qcache[cfg.shape], fresh_oracle, extra) for cfg, h in part])
+        groups.append([(cfg, [h], qcache[(cfg.shape, cfg.noq)], fresh_oracle, extra) for cfg, h in part])
     flat = [g for grp in groups for g in grp]
     if len(jobs) < 64:
         outs = [_worker(a) for a in flat]
